@@ -1,0 +1,30 @@
+//go:build verif
+
+// Contracts for package utils, read by the verification-condition generator in /verif/govc.
+// This file contains comments only; it is compiled only with -tags verif and adds no code.
+
+package utils
+
+/*@
+// The callback of LoadDatabaseFromStream: stops at the first error and hands it back; otherwise stores a
+// fresh copy of the record in the map under its header.
+func LoadDatabaseFromStream$1
+  props C08 C09 C10 C01
+  refines parser.StopOnErr
+  requires @wfdb WfDB(nodeMap)
+  modifies mapof(nodeMap)
+  ensures @wfdb WfDB(nodeMap)
+
+// LoadDatabaseFromStream: the book is a well-formed map; the load fails iff the file has a malformed line
+// or cannot be read completely, quoting the first malformed line
+func LoadDatabaseFromStream returns (db, err)
+  props C08 C09 C10 C01
+  calluse ParseStreamCallback#1 loaddb
+  modifies ghost(cbLen, cbErr, cbNode, cbStop, cbRet, cbLineNo, cbLine, cbHeader, cbElems, cbNElems, scRd, scPos, privLo, evOf)
+  let rd := payload(dbStream)
+  let cc := pc.CommentChar
+  ensures @wfdb [C08 C01] WfDB(db) && fresh(db)
+  ensures @fails-on-malformed [C09] err == nil ==> (forall i int :: {RdLine(rd, i)} 0 <= i && i < RdN(rd) ==> !Malformed(rd, i, cc))
+  ensures @fails-on-unreadable [C10] err == nil ==> !RdFailed(rd)
+  ensures @quotes-first [C09] forall j int :: {cbErr[j]} old(cbLen) <= j && j < cbLen && cbErr[j] != nil ==> j == cbLen - 1 && err == cbErr[j] && (forall i2 int :: {RdLine(rd, i2)} 0 <= i2 && i2 < cbLineNo[j] - 1 ==> !Malformed(rd, i2, cc))
+@*/
